@@ -6,11 +6,13 @@ import GateryModel.C08.Compat
 * read enable absent = enabled; enable `0` or undefined, or an address without state → all undefined (`:188-190`);
 * address fully defined → the addressed word, all undefined beyond the memory (`:232-240`);
 * address with undefined bits, `UndefinedReadAddrBehavior::EXACT` → loop over `allPossibleUndefinedValues`: a candidate beyond the memory
-  makes the result all undefined, otherwise the first candidate word is copied and every further one merged with
+  makes the result all undefined (also if it is the very first one), otherwise the first candidate word is copied and every further one merged with
   `mergeUndefinedSelection` (a bit stays defined only if it is defined and equal in all candidate words); the early exit
   "nothing defined any more" does not change the result (`:206-228`);
-* address with undefined bits, default behaviour → all undefined (`:229-231`);
-* the one input on which the real code throws instead is described by `memReadThrows`.
+* address with undefined bits, default behaviour → all undefined (`:229-231`).
+
+The read is total: since `8407a61` the `EXACT` loop also terminates regularly when already the smallest candidate lies beyond
+the memory (it used to trip `HCL_ASSERT(first == false)`).
 
 Not modelled: the forwarding of pending writes of earlier write ports of the same cycle (`:244-279`); the harness stream `mem`
 uses memories without write ports.  Core Lean only.
@@ -50,15 +52,6 @@ def memRead (exact : Bool) (w : Nat) (mem : List BV4) (en : Option BV4) (addr : 
   match addr with
   | none => undef w
   | some a => if readEnabled en then memReadCore exact w mem a else undef w
-
-/-- guard: the read the real code cannot evaluate.  With `EXACT` and undefined address bits the loop copies the first candidate
-    word and asserts afterwards that it did (`HCL_ASSERT(first == false)`, `:230`); if already the first (smallest) candidate —
-    the address with its undefined bits read as 0 — lies beyond the memory, the loop leaves before copying and the assertion
-    throws.  `memRead` gives "all undefined" there (what the loop had just written); the theorems hold for it regardless. -/
-def memReadThrows (exact : Bool) (memWords : Nat) (en addr : Option BV4) : Bool :=
-  match addr with
-  | none => false
-  | some a => readEnabled en && exact && !a.allDef && decide (a.toNat ≥ memWords)
 
 /-! ## facts about candidates -/
 
